@@ -113,6 +113,14 @@ def sweep_configs(tier):
             if mode == 'POW2_M1' and n > 54:
                 continue
             cfg.append(('sq', n, None, mode, n % 2 == 1))
+    # lopsided shapes: the reduction trees of the multipliers leave gaps in their columns only when one operand is
+    # much narrower than the other
+    narrow = (1, 2, 3) if tier == 'quick' else (1, 2, 3, 4, 5)
+    long_ = tuple(range(9, 17)) + (24, 30) if tier == 'quick' else tuple(range(9, 34)) + (40, 48)
+    for n, m in itertools.product(narrow, long_):
+        for k, mode in enumerate(MUL_MODES):
+            cfg.append(('mul', n, m, mode, (n + m + k) % 2 == 1))
+            cfg.append(('mul', m, n, mode, (n + m + k) % 2 == 0))
     if tier == 'thorough':
         for n, m in itertools.product((9, 10, 11, 12), repeat=2):
             for mode in MUL_MODES:
